@@ -451,6 +451,8 @@ def compare(impl, model, fields_by_kind):
                 continue  # the line is observable only in a diff report footer
             if vb == "*":
                 continue  # the model does not speak about this field
+            if f == "cfgsame" and va is None:
+                continue  # only Match* calls carry it
             if f == "outcomes" and va is not None and vb is not None and va != vb and outcomes_agree(va, vb):
                 DRIFT["failure kind not recognised"] += 1
                 continue
